@@ -100,3 +100,178 @@ Qed.
 (* ListBox up/down and GridFlow left/right choose with [find]: the element found satisfies the test *)
 Theorem find_selectable {A} (p : A -> bool) l x : find p l = Some x -> p x = true.
 Proof. intros H. apply find_some in H. apply H. Qed.
+
+(* ---------- never past a selectable child: the focus goes to the NEAREST selectable child in the direction ---------- *)
+Lemma find_first {A} (p : A -> bool) l x :
+  find p l = Some x -> exists pre post, l = pre ++ x :: post /\ p x = true /\ forall y, In y pre -> p y = false.
+Proof.
+  induction l as [|a r IH]; intros H; [discriminate|]. cbn [find] in H. destruct (p a) eqn:E.
+  - injection H as <-. exists [], r. split; [reflexivity|]. split; [exact E|]. intros y [].
+  - destruct (IH H) as (pre & post & -> & Hx & Hp). exists (a :: pre), post. split; [reflexivity|]. split; [exact Hx|].
+    intros y [<-|Hy]; [exact E|apply Hp; exact Hy].
+Qed.
+
+Lemma seq_split n : forall s pre x post, seq s n = pre ++ x :: post -> pre = seq s (x - s) /\ (s <= x < s + n)%nat.
+Proof.
+  induction n as [|n IH]; intros s pre x post H; cbn [seq] in H; [destruct pre; discriminate|].
+  destruct pre as [|p pre]; cbn [app] in H.
+  - injection H as <- _. rewrite Nat.sub_diag. split; [reflexivity|lia].
+  - injection H as <- H. destruct (IH _ _ _ _ H) as [-> Hr]. split; [|lia].
+    replace (x - s)%nat with (S (x - S s)) by lia. reflexivity.
+Qed.
+
+Lemma range_up_split a b pre j post : range_up a b = pre ++ j :: post -> pre = range_up a j /\ a <= j < b.
+Proof.
+  unfold range_up, seq_z. rewrite map_map. intros H.
+  apply map_eq_app in H. destruct H as (l1 & l2 & Hs & <- & H2).
+  destruct l2 as [|k l2]; [discriminate|]. cbn [map] in H2. injection H2 as <- _.
+  apply seq_split in Hs. destruct Hs as [-> Hr]. rewrite Nat.sub_0_r. rewrite map_map.
+  replace (Z.to_nat (a + Z.of_nat k - a)) with k by lia. split; [reflexivity|lia].
+Qed.
+
+Lemma in_range_up a b i : In i (range_up a b) <-> a <= i < b.
+Proof.
+  unfold range_up, seq_z. rewrite map_map, in_map_iff. split.
+  - intros (k & <- & Hk). apply in_seq in Hk. lia.
+  - intros H. exists (Z.to_nat (i - a)). split; [lia|]. apply in_seq. lia.
+Qed.
+
+Lemma seq_add_map n1 : forall n2, seq n1 n2 = map (Nat.add n1) (seq 0 n2).
+Proof.
+  induction n1 as [|n1 IH]; intros n2; [symmetry; apply map_id|].
+  rewrite <- seq_shift, IH, map_map. reflexivity.
+Qed.
+
+Lemma range_up_app a j b : a <= j <= b -> range_up a b = range_up a j ++ range_up j b.
+Proof.
+  intros H. unfold range_up, seq_z. rewrite !map_map.
+  replace (Z.to_nat (b - a)) with (Z.to_nat (j - a) + Z.to_nat (b - j))%nat by lia.
+  rewrite seq_app, map_app. f_equal. cbn [Nat.add]. rewrite seq_add_map, map_map. apply map_ext. intros k. lia.
+Qed.
+
+Lemma range_up_cons a b : a < b -> range_up a b = a :: range_up (a + 1) b.
+Proof.
+  intros H. rewrite (range_up_app a (a + 1) b) by lia.
+  assert (E : range_up a (a + 1) = [a]).
+  { unfold range_up, seq_z. replace (a + 1 - a) with 1 by lia. change (Z.to_nat 1) with 1%nat. cbn [seq map]. f_equal. change (Z.of_nat 0) with 0. lia. }
+  rewrite E. reflexivity.
+Qed.
+
+Lemma range_down_is_rev a : range_down a = rev (range_up 0 a).
+Proof.
+  unfold range_down, range_up. f_equal. rewrite Z.sub_0_r. symmetry. rewrite <- (map_id (seq_z a)) at 2. apply map_ext. intros; lia.
+Qed.
+
+(* the candidates before the chosen one are exactly the positions between the old focus and it *)
+Lemma range_down_split a pre j post : range_down a = pre ++ j :: post -> 0 <= j < a /\ pre = rev (range_up (j + 1) a).
+Proof.
+  rewrite range_down_is_rev. intros H.
+  assert (Hr : range_up 0 a = rev post ++ j :: rev pre).
+  { rewrite <- (rev_involutive (range_up 0 a)), H, rev_app_distr. cbn [rev]. rewrite <- app_assoc. reflexivity. }
+  destruct (range_up_split _ _ _ _ _ Hr) as [Hp Hj]. split; [exact Hj|].
+  rewrite (range_up_app 0 j a) in Hr by lia. rewrite (range_up_cons j a) in Hr by lia. rewrite Hp in Hr.
+  apply app_inv_head in Hr. injection Hr as Hr. rewrite <- (rev_involutive pre), <- Hr. reflexivity.
+Qed.
+
+(* Columns.keypress left/right: no move exactly when no candidate is selectable; nothing is written *)
+Theorem cols_move_false f id cands : forall h h' n,
+  getn h id = Some n -> cols_move f id cands h = (h', ROk false) ->
+  h' = h /\ forall j c, In j cands -> nthz (items n) j = Some c -> sel f h c = false.
+Proof.
+  induction cands as [|j r IH]; intros h h' n G H; cbn [cols_move] in H.
+  - apply ret_inv in H. destruct H as [-> _]. split; [reflexivity|]. intros j c [].
+  - apply mbind_inv in H. destruct H as (h1 & n1 & Hr & H). apply rd_inv in Hr. destruct Hr as [-> G1].
+    rewrite G in G1. injection G1 as <-.
+    apply mbind_inv in H. destruct H as (h1 & hh & Hg & H). apply get_heap_inv in Hg. destruct Hg as [-> ->].
+    destruct (nthz (items n) j) as [c|] eqn:En; [|exfalso; eapply raise_inv; exact H].
+    destruct (sel f h c) eqn:Es.
+    + apply mbind_inv in H. destruct H as (h2 & u & _ & H). apply ret_inv in H. destruct H as [_ H]. discriminate.
+    + destruct (IH h h' n G H) as [-> Hall]. split; [reflexivity|].
+      intros j' c' [<-|Hj] Hc; [rewrite En in Hc; injection Hc as <-; exact Es|eapply Hall; eassumption].
+Qed.
+
+(* ... and when it moves, it moves to the FIRST selectable candidate *)
+Theorem cols_move_first f id cands : forall h h' n,
+  getn h id = Some n -> nk n = KCols -> cols_move f id cands h = (h', ROk true) ->
+  exists pre j post c, cands = pre ++ j :: post /\ nthz (items n) j = Some c /\ sel f h c = true /\
+    focus_child h' id = Some c /\ forall i ci, In i pre -> nthz (items n) i = Some ci -> sel f h ci = false.
+Proof.
+  induction cands as [|j r IH]; intros h h' n G K H; cbn [cols_move] in H.
+  - apply ret_inv in H. destruct H as [_ H]. discriminate.
+  - apply mbind_inv in H. destruct H as (h1 & n1 & Hr & H). apply rd_inv in Hr. destruct Hr as [-> G1].
+    rewrite G in G1. injection G1 as <-.
+    apply mbind_inv in H. destruct H as (h1 & hh & Hg & H). apply get_heap_inv in Hg. destruct Hg as [-> ->].
+    destruct (nthz (items n) j) as [c|] eqn:En; [|exfalso; eapply raise_inv; exact H].
+    destruct (sel f h c) eqn:Es.
+    + apply mbind_inv in H. destruct H as (h2 & u & Hw & H). apply ret_inv in H. destruct H as [Hh _]. subst h'. destruct u.
+      destruct (w_focus_ok_inv h id j h2 n G (or_intror (or_introl K)) Hw) as (_ & _ & Hf).
+      exists [], j, r, c. split; [reflexivity|]. split; [exact En|]. split; [exact Es|]. split; [rewrite Hf; exact En|]. intros i ci [].
+    + destruct (IH h h' n G K H) as (pre & j' & post & c' & -> & Hn & Hs & Hf & Hp).
+      exists (j :: pre), j', post, c'. split; [reflexivity|]. split; [exact Hn|]. split; [exact Hs|]. split; [exact Hf|].
+      intros i ci [<-|Hi] Hc; [rewrite En in Hc; injection Hc as <-; exact Es|eapply Hp; eassumption].
+Qed.
+
+(* 'right': the nearest selectable column to the right gets the focus *)
+Theorem columns_right_nearest f id h h' n :
+  getn h id = Some n -> nk n = KCols -> cols_move f id (range_up (nfocus n + 1) (nlen n)) h = (h', ROk true) ->
+  exists j c, nfocus n < j < nlen n /\ nthz (items n) j = Some c /\ sel f h c = true /\ focus_child h' id = Some c /\
+    forall i ci, nfocus n < i < j -> nthz (items n) i = Some ci -> sel f h ci = false.
+Proof.
+  intros G K H. destruct (cols_move_first _ _ _ _ _ _ G K H) as (pre & j & post & c & Hc & Hn & Hs & Hf & Hp).
+  destruct (range_up_split _ _ _ _ _ Hc) as [-> Hj]. exists j, c. split; [lia|]. repeat split; try assumption.
+  intros i ci Hi. apply Hp. apply in_range_up. lia.
+Qed.
+
+(* 'left': the nearest selectable column to the left *)
+Theorem columns_left_nearest f id h h' n :
+  getn h id = Some n -> nk n = KCols -> cols_move f id (range_down (nfocus n)) h = (h', ROk true) ->
+  exists j c, 0 <= j < nfocus n /\ nthz (items n) j = Some c /\ sel f h c = true /\ focus_child h' id = Some c /\
+    forall i ci, j < i < nfocus n -> nthz (items n) i = Some ci -> sel f h ci = false.
+Proof.
+  intros G K H. destruct (cols_move_first _ _ _ _ _ _ G K H) as (pre & j & post & c & Hc & Hn & Hs & Hf & Hp).
+  destruct (range_down_split _ _ _ _ Hc) as [Hj ->]. exists j, c. split; [lia|]. repeat split; try assumption.
+  intros i ci Hi. apply Hp. rewrite <- in_rev. apply in_range_up. lia.
+Qed.
+
+(* Pile.keypress up/down: the same for pile_move (the focus write is followed by the cursor move inside the child) *)
+Theorem pile_move_false f id up cands : forall h h' n,
+  getn h id = Some n -> pile_move f id up cands h = (h', ROk false) ->
+  h' = h /\ forall j c, In j cands -> nthz (items n) j = Some c -> sel f h c = false.
+Proof.
+  induction cands as [|j r IH]; intros h h' n G H; cbn [pile_move] in H.
+  - apply ret_inv in H. destruct H as [-> _]. split; [reflexivity|]. intros j c [].
+  - apply mbind_inv in H. destruct H as (h1 & n1 & Hr & H). apply rd_inv in Hr. destruct Hr as [-> G1].
+    rewrite G in G1. injection G1 as <-.
+    apply mbind_inv in H. destruct H as (h1 & hh & Hg & H). apply get_heap_inv in Hg. destruct Hg as [-> ->].
+    destruct (nthz (items n) j) as [c|] eqn:En; [|exfalso; eapply raise_inv; exact H].
+    destruct (sel f h c) eqn:Es; cbn [negb] in H.
+    + exfalso. apply mbind_inv in H. destruct H as (h2 & u & _ & H).
+      apply mbind_inv in H. destruct H as (h3 & u2 & _ & H).
+      apply mbind_inv in H. destruct H as (h4 & hh & _ & H).
+      destruct (negb (has_mc hh j)); [|]. all: try (apply ret_inv in H; destruct H as [_ H]; discriminate).
+      all: try (destruct (negb (has_mc hh c)); [apply ret_inv in H; destruct H as [_ H]; discriminate|];
+                apply mbind_inv in H; destruct H as (h5 & u3 & _ & H); apply ret_inv in H; destruct H as [_ H]; discriminate).
+    + destruct (IH h h' n G H) as [-> Hall]. split; [reflexivity|].
+      intros j' c' [<-|Hj] Hc; [rewrite En in Hc; injection Hc as <-; exact Es|eapply Hall; eassumption].
+Qed.
+
+Theorem pile_move_first f id up cands : forall h h' n,
+  getn h id = Some n -> nk n = KPile -> pile_move f id up cands h = (h', ROk true) ->
+  exists pre j post c h1 h2, cands = pre ++ j :: post /\ nthz (items n) j = Some c /\ sel f h c = true /\
+    upd_pref_from_focus f id h = (h1, ROk tt) /\ w_focus id j h1 = (h2, ROk tt) /\
+    forall i ci, In i pre -> nthz (items n) i = Some ci -> sel f h ci = false.
+Proof.
+  induction cands as [|j r IH]; intros h h' n G K H; cbn [pile_move] in H.
+  - apply ret_inv in H. destruct H as [_ H]. discriminate.
+  - apply mbind_inv in H. destruct H as (h1 & n1 & Hr & H). apply rd_inv in Hr. destruct Hr as [-> G1].
+    rewrite G in G1. injection G1 as <-.
+    apply mbind_inv in H. destruct H as (h1 & hh & Hg & H). apply get_heap_inv in Hg. destruct Hg as [-> ->].
+    destruct (nthz (items n) j) as [c|] eqn:En; [|exfalso; eapply raise_inv; exact H].
+    destruct (sel f h c) eqn:Es; cbn [negb] in H.
+    + apply mbind_inv in H. destruct H as (h1 & u & Hu & H). destruct u.
+      apply mbind_inv in H. destruct H as (h2 & u & Hw & H). destruct u.
+      exists [], j, r, c, h1, h2. split; [reflexivity|]. repeat split; try assumption. intros i ci [].
+    + destruct (IH h h' n G K H) as (pre & j' & post & c' & h1 & h2 & -> & Hn & Hs & Hu & Hw & Hp).
+      exists (j :: pre), j', post, c', h1, h2. split; [reflexivity|]. repeat split; try assumption.
+      intros i ci [<-|Hi] Hc; [rewrite En in Hc; injection Hc as <-; exact Es|eapply Hp; eassumption].
+Qed.
